@@ -17,6 +17,7 @@
 (*                                                                         *)
 (* One action per code section between two suspension points:              *)
 (*  environment  Edit, Toggle, Delete, ForceFin, Deliver, Stop, Kill, Down,*)
+(*               Pause, Resume (decided by the peering engine),            *)
 (*               Tick; the user's daemon functions: DEnter (the task       *)
 (*               starts), DSeeFlag, DCancelled (CancelledError arrives),   *)
 (*               DExit (returns or raises: _runner's finally runs)         *)
@@ -30,8 +31,13 @@
 (*                           or sleep for the smallest delay, or nothing   *)
 (*               SrvMerge (clears the touch dummy), Reply1, SrvJson,       *)
 (*               Post, SleepWake, SleepExpire, SrvTouch                    *)
-(*               KillerExit / ExitCancel(h): daemon_killer when the        *)
-(*               operator exits                                            *)
+(*               KillerPass / KillerExit: daemon_killer starts a           *)
+(*               stop_daemon() per instance in sight - every second while  *)
+(*               the operator is paused, once when it exits;               *)
+(*               KCancel(h) / KDrop(h): such a stop_daemon() reaches its   *)
+(*               cancellation point (its own clock: since it was started)  *)
+(*               Pause / Resume: the streams are closed while paused, a    *)
+(*               resume re-lists                                           *)
 (***************************************************************************)
 EXTENDS Integers, Sequences, FiniteSets, TLC
 
@@ -45,7 +51,7 @@ CONSTANTS
              \*                  prompt |-> the watch stream delivers without delay,
              \*                  exitto |-> settings.queueing.exit_timeout: how long the workers may go on after the watcher has ended]
   Horizon,
-  MaxEdits, MaxToggles, MaxDeletes, MaxForce, MaxStops, MaxKills
+  MaxEdits, MaxToggles, MaxDeletes, MaxForce, MaxStops, MaxKills, MaxPauses
 
 VARIABLES
   obj,      \* the server's object: [exists, rv, deleting, match, fin (the framework's finalizer), dummy]
@@ -67,10 +73,11 @@ NoRun == [on |-> FALSE,        \* registered (the guarding task has not finished
           exited |-> FALSE,    \* ... and has returned or raised: the guarding task is about to finish
           flag |-> FALSE, when |-> 0, seen |-> FALSE,
           t0 |-> 0,            \* since when its reaction lets it leave
-          creq |-> FALSE,      \* task.cancel() was called
-          cdel |-> FALSE,      \* ... and the CancelledError has reached the function
+          cset |-> FALSE,      \* the stopper carries DAEMON_CANCELLED (stop_daemons cancels only once)
+          creq |-> FALSE,      \* task.cancel() was called and the CancelledError has not reached the function yet
+          cdel |-> FALSE,      \* a CancelledError has reached the function
           aband |-> FALSE,
-          xk |-> FALSE]        \* the exiting daemon_killer runs stop_daemon() for it
+          sd |-> {}]           \* start instants of the stop_daemon() coroutines of the daemon killer that are still before their cancellation point
 FreshMem == [known |-> FALSE, forever |-> {}]
 NoCyc == [s |-> [type |-> "none"], m |-> FreshMem, todo |-> {}, cur |-> "none", ph |-> "none", age |-> 0, delays |-> {}, fns |-> {},
           fresh |-> 0, ffin |-> FALSE, rv |-> 0, wake |-> 0, vis |-> FALSE]
@@ -81,7 +88,7 @@ Commit(o) ==
   LET gone == o.deleting /\ ~o.fin
       o2 == [o EXCEPT !.rv = obj.rv + 1, !.exists = ~gone]
   IN /\ obj' = o2
-     /\ chan' = IF up /\ ~gh.closed THEN Append(chan, Snap(IF gone THEN "DELETED" ELSE "MODIFIED", o2)) ELSE chan
+     /\ chan' = IF up /\ ~gh.closed /\ ~gh.pclosed THEN Append(chan, Snap(IF gone THEN "DELETED" ELSE "MODIFIED", o2)) ELSE chan
 
 Init ==
   /\ conf \in ConfSet
@@ -89,8 +96,8 @@ Init ==
   /\ chan = << Snap("ADDED", obj) >> /\ bl = <<>>
   /\ up = TRUE /\ stopping = FALSE /\ mem = FreshMem /\ run = [h \in Hs |-> NoRun]
   /\ pc = "idle" /\ cyc = NoCyc /\ now = 0
-  /\ bud = [edits |-> 0, toggles |-> 0, deletes |-> 0, force |-> 0, stops |-> 0, kills |-> 0]
-  /\ gh = [early |-> FALSE, respawned |-> FALSE, killer |-> FALSE, exitwhen |-> 0, rematch |-> {}, double |-> FALSE, delat |-> 0, stopat |-> 0, closed |-> FALSE, racy |-> {}]
+  /\ bud = [edits |-> 0, toggles |-> 0, deletes |-> 0, force |-> 0, stops |-> 0, kills |-> 0, pauses |-> 0]
+  /\ gh = [early |-> FALSE, respawned |-> FALSE, killer |-> FALSE, exitwhen |-> 0, rematch |-> {}, double |-> FALSE, delat |-> 0, stopat |-> 0, closed |-> FALSE, racy |-> {}, paused |-> FALSE, pclosed |-> FALSE, needlist |-> FALSE, nextpass |-> 0]
 
 (***************************************************************************)
 (* Environment                                                             *)
@@ -108,7 +115,7 @@ Delete ==
   /\ IF obj.fin THEN Commit([obj EXCEPT !.deleting = TRUE]) /\ gh' = [gh EXCEPT !.delat = now]
      ELSE /\ UNCHANGED gh
           /\ obj' = [obj EXCEPT !.rv = @ + 1, !.exists = FALSE]
-          /\ chan' = IF up /\ ~gh.closed THEN Append(chan, Snap("DELETED", obj')) ELSE chan
+          /\ chan' = IF up /\ ~gh.closed /\ ~gh.pclosed THEN Append(chan, Snap("DELETED", obj')) ELSE chan
   /\ bud' = [bud EXCEPT !.deletes = @ + 1]
   /\ UNCHANGED <<bl, up, stopping, mem, run, pc, cyc, now, conf>>
 ForceFin ==       \* somebody else strips the finalizers (kubectl patch ... finalizers: null)
@@ -116,7 +123,7 @@ ForceFin ==       \* somebody else strips the finalizers (kubectl patch ... fina
   /\ Commit([obj EXCEPT !.fin = FALSE]) /\ bud' = [bud EXCEPT !.force = @ + 1]
   /\ UNCHANGED <<bl, up, stopping, mem, run, pc, cyc, now, gh, conf>>
 Deliver ==
-  /\ up /\ ~gh.closed /\ chan # <<>>
+  /\ up /\ ~gh.closed /\ ~gh.pclosed /\ chan # <<>>
   /\ bl' = Append(bl, Head(chan)) /\ chan' = Tail(chan)
   /\ UNCHANGED <<obj, up, stopping, mem, run, pc, cyc, now, bud, gh, conf>>
 Stop ==           \* graceful exit is requested: the root tasks are cancelled
@@ -128,17 +135,37 @@ StreamEnd ==      \* ... the watcher among them: its stream is closed, the backl
   /\ up /\ stopping /\ ~gh.closed
   /\ gh' = [gh EXCEPT !.closed = TRUE]
   /\ UNCHANGED <<obj, chan, bl, up, stopping, mem, run, pc, cyc, now, bud, conf>>
+\* the peering engine turns the operator's pause toggle on: the daemon killer wakes up, and a few iterations of the loop later
+\* the streams are closed (what they had not handed over is dropped; what they hand over until then sneaks into the workers);
+\* ... and off: the watchers start over with a listing
+Pause ==
+  /\ up /\ ~gh.paused /\ conf.peering /\ bud.pauses < MaxPauses
+  /\ gh' = [gh EXCEPT !.paused = TRUE, !.nextpass = now] /\ bud' = [bud EXCEPT !.pauses = @ + 1]
+  /\ UNCHANGED <<obj, chan, bl, up, stopping, mem, run, pc, cyc, now, conf>>
+PauseClose ==
+  /\ up /\ gh.paused /\ ~gh.pclosed
+  /\ gh' = [gh EXCEPT !.pclosed = TRUE] /\ chan' = <<>>
+  /\ UNCHANGED <<obj, bl, up, stopping, mem, run, pc, cyc, now, bud, conf>>
+Resume ==
+  /\ up /\ gh.paused /\ gh.pclosed
+  /\ gh' = [gh EXCEPT !.paused = FALSE, !.pclosed = FALSE, !.needlist = TRUE]
+  /\ UNCHANGED <<obj, chan, bl, up, stopping, mem, run, pc, cyc, now, bud, conf>>
+Relist ==         \* the watcher, released by the resume, lists: what exists is queued as a listed item
+  /\ up /\ gh.needlist /\ ~gh.closed /\ ~gh.paused
+  /\ gh' = [gh EXCEPT !.needlist = FALSE]
+  /\ bl' = IF obj.exists THEN Append(bl, Snap("NONE", obj)) ELSE bl
+  /\ UNCHANGED <<obj, chan, up, stopping, mem, run, pc, cyc, now, bud, conf>>
 Kill ==
   /\ up /\ bud.kills < MaxKills
   /\ up' = FALSE /\ stopping' = FALSE /\ pc' = "idle" /\ cyc' = NoCyc /\ bl' = <<>> /\ chan' = <<>>
   /\ mem' = FreshMem /\ run' = [h \in Hs |-> NoRun] /\ bud' = [bud EXCEPT !.kills = @ + 1]
-  /\ gh' = [gh EXCEPT !.killer = FALSE, !.rematch = {}, !.closed = FALSE]
+  /\ gh' = [gh EXCEPT !.killer = FALSE, !.rematch = {}, !.closed = FALSE, !.paused = FALSE, !.pclosed = FALSE, !.needlist = FALSE]
   /\ UNCHANGED <<obj, now, conf>>
 Down ==           \* the process has ended (whatever was left is swept with it)
   /\ up /\ stopping /\ gh.killer /\ gh.closed /\ pc \in {"idle", "sleep"}
   /\ up' = FALSE /\ stopping' = FALSE /\ pc' = "idle" /\ cyc' = NoCyc /\ bl' = <<>> /\ chan' = <<>>
   /\ mem' = FreshMem /\ run' = [h \in Hs |-> NoRun]
-  /\ gh' = [gh EXCEPT !.killer = FALSE, !.rematch = {}, !.closed = FALSE]
+  /\ gh' = [gh EXCEPT !.killer = FALSE, !.rematch = {}, !.closed = FALSE, !.paused = FALSE, !.pclosed = FALSE, !.needlist = FALSE]
   /\ UNCHANGED <<obj, now, bud, conf>>
 
 (***************************************************************************)
@@ -159,8 +186,8 @@ DSeeFlag(h) ==
   /\ run' = [run EXCEPT ![h].seen = TRUE, ![h].t0 = IF DH[h].react = "obey" THEN now ELSE @]
   /\ UNCHANGED <<obj, chan, bl, up, stopping, mem, pc, cyc, now, bud, gh, conf>>
 DCancelled(h) ==  \* a thread cannot be cancelled
-  /\ up /\ Alive(h) /\ run[h].creq /\ ~run[h].cdel /\ ~DH[h].sync /\ ~IsTimer(h)
-  /\ run' = [run EXCEPT ![h].cdel = TRUE, ![h].t0 = IF DH[h].react = "cancel" THEN now ELSE @]
+  /\ up /\ Alive(h) /\ run[h].creq /\ ~DH[h].sync /\ ~IsTimer(h)
+  /\ run' = [run EXCEPT ![h].cdel = TRUE, ![h].creq = FALSE, ![h].t0 = IF DH[h].react = "cancel" /\ ~run[h].cdel THEN now ELSE @]
   /\ UNCHANGED <<obj, chan, bl, up, stopping, mem, pc, cyc, now, bud, gh, conf>>
 MayExit(h) == LET r == DH[h].react IN
   /\ \/ r = "any" \/ r = "selfexit"
@@ -189,7 +216,8 @@ ProcBegin ==
          mine == {h \in Hs : run[h].on /\ run[h].vis}  \* running_daemons of the recalled memory
          wanted == Matching(s, m1.forever)
          tospawn == IF s.deleting THEN {} ELSE wanted \ mine
-         tostop == IF s.deleting THEN mine ELSE mine \ wanted
+         \* pause_daemons(): while paused every running instance - those spawned a moment ago included - is told to stop
+         tostop == IF s.deleting THEN mine ELSE IF gh.paused THEN mine \cup tospawn ELSE mine \ wanted
      IN /\ bl' = Tail(bl)
         /\ mem' = IF gone THEN FreshMem ELSE m1
         /\ run' = [h \in Hs |-> IF h \in tospawn THEN [NoRun EXCEPT !.on = TRUE, !.vis = vis, !.started = IsTimer(h)]
@@ -221,7 +249,7 @@ Stage(h) ==
      IN IF ~run[h].on THEN cyc' = next({}) /\ UNCHANGED run                                     \* exited (instantly or earlier)
         ELSE IF b > 0 /\ age < b THEN cyc' = next({b - age}) /\ UNCHANGED run                   \* signalled: wait for the backoff
         ELSE IF t > 0 /\ age < t + b
-             THEN IF ~run[h].creq THEN run' = [run EXCEPT ![h].creq = TRUE] /\ cyc' = [cyc EXCEPT !.ph = "canc"]
+             THEN IF ~run[h].cset THEN run' = [run EXCEPT ![h].cset = TRUE, ![h].creq = TRUE] /\ cyc' = [cyc EXCEPT !.ph = "canc"]
                   ELSE cyc' = next({t + b - age}) /\ UNCHANGED run
         ELSE IF t > 0 THEN run' = [run EXCEPT ![h].aband = TRUE] /\ cyc' = next({})             \* abandoned: no more waiting
         ELSE cyc' = next({conf.polling}) /\ UNCHANGED run                                        \* no timeout: polled forever
@@ -304,30 +332,42 @@ WorkerAbort ==
 (* daemon_killer when the operator exits (its pausing branch is in         *)
 (* Trace_Peering / PauseSet): stop_daemon() for every instance in sight    *)
 (***************************************************************************)
-KillerExit ==
-  /\ up /\ stopping /\ ~gh.killer
-  /\ run' = [h \in Hs |-> IF run[h].on /\ run[h].vis
-                          THEN (IF IsTimer(h) THEN NoRun ELSE [run[h] EXCEPT !.flag = TRUE, !.when = IF run[h].flag THEN @ ELSE now, !.xk = TRUE])
+\* one round of the daemon killer: a stop_daemon() coroutine is started for every instance in sight (idle timers end at once)
+Round(t) == [h \in Hs |-> IF run[h].on /\ run[h].vis
+                          THEN (IF IsTimer(h) THEN NoRun
+                                ELSE [run[h] EXCEPT !.flag = TRUE, !.when = IF run[h].flag THEN @ ELSE t, !.sd = @ \cup {t}])
                           ELSE run[h]]
-  /\ gh' = [gh EXCEPT !.killer = TRUE, !.exitwhen = now]
+KillerPass ==     \* while paused: at once, then every second
+  /\ up /\ ~stopping /\ gh.paused /\ now >= gh.nextpass
+  /\ run' = Round(now) /\ gh' = [gh EXCEPT !.nextpass = now + 1]
   /\ UNCHANGED <<obj, chan, bl, up, stopping, mem, pc, cyc, now, bud, conf>>
-ExitCancel(h) ==
-  /\ up /\ stopping /\ gh.killer /\ run[h].on /\ run[h].xk /\ ~run[h].creq
-  /\ DH[h].timeout > 0 /\ now >= gh.exitwhen + DH[h].backoff
-  /\ run' = [run EXCEPT ![h].creq = TRUE]
+KillerExit ==     \* the killer is cancelled with the other root tasks: its finally-block makes a last round
+  /\ up /\ stopping /\ ~gh.killer
+  /\ run' = Round(now) /\ gh' = [gh EXCEPT !.killer = TRUE, !.exitwhen = now]
+  /\ UNCHANGED <<obj, chan, bl, up, stopping, mem, pc, cyc, now, bud, conf>>
+\* stop_daemon(): flag, wait for the backoff on its own clock, cancel (if there is a cancellation timeout), wait, give up
+KCancel(h) ==
+  /\ up /\ run[h].on /\ DH[h].timeout > 0
+  /\ \E t \in run[h].sd : now >= t + DH[h].backoff /\ run' = [run EXCEPT ![h].sd = @ \ {t}, ![h].cset = TRUE, ![h].creq = TRUE]
+  /\ UNCHANGED <<obj, chan, bl, up, stopping, mem, pc, cyc, now, bud, gh, conf>>
+KDrop(h) ==       \* ... no cancellation timeout: the coroutine ends after the backoff ("left orphaned")
+  /\ up /\ run[h].on /\ DH[h].timeout = 0
+  /\ \E t \in run[h].sd : now >= t + DH[h].backoff /\ run' = [run EXCEPT ![h].sd = @ \ {t}]
   /\ UNCHANGED <<obj, chan, bl, up, stopping, mem, pc, cyc, now, bud, gh, conf>>
 
 OpStep == ProcBegin \/ (\E h \in Hs : StopSet(h) \/ Stage(h) \/ StageC(h)) \/ ProcFinish \/ SrvMerge \/ Reply1 \/ SrvJson \/ Post
-          \/ SleepWake \/ SleepExpire \/ SrvTouch \/ StreamEnd \/ WorkerAbort \/ KillerExit \/ (\E h \in Hs : ExitCancel(h))
+          \/ SleepWake \/ SleepExpire \/ SrvTouch \/ StreamEnd \/ WorkerAbort \/ KillerExit \/ KillerPass \/ PauseClose \/ (Relist /\ ~stopping)
+          \/ (\E h \in Hs : KCancel(h) \/ KDrop(h))
 \* a function with a stated latency does what it does on time
 Punctual(h) == DH[h].lat # -1 /\ (DSeeFlag(h) \/ DCancelled(h) \/ DExit(h))
-Urgent == OpStep \/ (\E h \in Hs : DEnter(h) \/ REnd(h) \/ Punctual(h))
+\* (a requested cancellation reaches a coroutine in the next iteration of the loop)
+Urgent == OpStep \/ (\E h \in Hs : DEnter(h) \/ REnd(h) \/ DCancelled(h) \/ Punctual(h))
 DStep == \E h \in Hs : DEnter(h) \/ DSeeFlag(h) \/ DCancelled(h) \/ DExit(h) \/ REnd(h)
 Tick == /\ now < Horizon /\ ~ENABLED Urgent /\ now' = now + 1
         /\ (conf.prompt => chan = <<>>)       \* a prompt stream hands changes over in the instant they are committed
         /\ UNCHANGED <<obj, chan, bl, up, stopping, mem, run, pc, cyc, bud, gh, conf>>
-EnvStep == Edit \/ Toggle \/ Delete \/ ForceFin \/ Stop \/ Kill
-Next == OpStep \/ DStep \/ Deliver \/ EnvStep \/ Down \/ Tick
+EnvStep == Edit \/ Toggle \/ Delete \/ ForceFin \/ Stop \/ Kill \/ Pause \/ Resume
+Next == OpStep \/ DStep \/ Deliver \/ EnvStep \/ Relist \/ Down \/ Tick
 Spec == Init /\ [][Next /\ conf' = conf]_vars
 \* the user's functions are fair where their reaction says they react
 FairSpec == Spec /\ WF_vars(OpStep) /\ WF_vars(Deliver) /\ WF_vars(Tick)
@@ -341,14 +381,16 @@ FairSpec == Spec /\ WF_vars(OpStep) /\ WF_vars(Deliver) /\ WF_vars(Tick)
 OneInstance == ~gh.double
 NoRespawnAfterOwnExit == ~gh.respawned
 \* task.cancel() is not called before the backoff has passed since the flag (resp. since the exit began)
-CancelNotBeforeBackoff == \A h \in Hs : (run[h].creq /\ ~stopping) => now >= run[h].when + DH[h].backoff
+CancelNotBeforeBackoff == \A h \in Hs : (run[h].cset /\ ~stopping) => now >= run[h].when + DH[h].backoff
 \* a stop flag is never taken back, an abandoned or cancelled instance was flagged
 \* (the final sweep of an exiting operator cancels whatever is left, flagged or not)
-StagesInOrder == \A h \in Hs : ((run[h].creq /\ ~stopping) \/ run[h].aband \/ run[h].seen) => run[h].flag
+StagesInOrder == \A h \in Hs : ((run[h].cset /\ ~stopping) \/ run[h].aband \/ run[h].seen \/ run[h].sd # {}) => run[h].flag
 \* C06: the finalizer is not withdrawn from a matching object marked for deletion under a live, entitled daemon
 FinalizerHeld == ~gh.early
 \* the instances of a timer or a daemon that is in sight are flagged whenever the processed view is a deleting one
-AtRest == up /\ ~stopping /\ ~ENABLED Urgent /\ chan = <<>> /\ bl = <<>> /\ pc = "idle"
+AtRest == up /\ ~stopping /\ ~gh.paused /\ ~ENABLED Urgent /\ chan = <<>> /\ bl = <<>> /\ pc = "idle"
+\* while paused (and once the killer has made its round) every instance in sight has been told to stop
+PausedAllFlagged == (up /\ ~stopping /\ gh.paused /\ ~ENABLED Urgent) => \A h \in Hs : (run[h].on /\ run[h].vis) => run[h].flag
 \* known families: F5 (instances of a vanished object are not driven to a stop), F18 (re-matching while stopping)
 Family_F5 == ~obj.exists /\ \E h \in Hs : run[h].on
 Family_F18 == gh.rematch # {}
